@@ -79,11 +79,11 @@ def shards(tier, seed):
     for ci, c in enumerate(pats):
         Rw = sum(c)
         if Rw == 6:
-            for part in range(12 if T else 2):
-                out.append(("B1", c, part, 12 if T else 2))
+            for part in range(6 if T else 2):
+                out.append(("B1", c, part, 6 if T else 2))
         elif Rw == 5:
-            for part in range(4 if T else 1):
-                out.append(("B1", c, part, 4 if T else 1))
+            for part in range(3 if T else 1):
+                out.append(("B1", c, part, 3 if T else 1))
         else:
             out.append(("B1", c, 0, 1))
     for c in ((2, 2, 2, 1), (2, 2, 2, 2), (3, 3, 1), (1, 1, 1, 1)):
@@ -141,8 +141,6 @@ def _shard_p1(ctx, n, lv, mi, nenv_only):
                 var = [list(combo[0:t]), list(combo[t:2 * t]), list(combo[2 * t:3 * t])]
                 if t == 1 and T:
                     tvs = (0, 1, 2)
-                elif T:
-                    tvs = ((ci + ei) % 3, (ci + ei + 1) % 3)
                 else:
                     tvs = ((ci + ei) % 3,)
                 for tv in tvs:
@@ -296,8 +294,25 @@ def run_trial(ctx, case):
     if case["calls"] == 2:
         ctx.flag("two-call-history")
         ctx.count("exec:two-call")
-    if ctx.evaluations % 5003 == 7 and "df" in box:
-        ctx.sample(dict(case=case, table=box["df"].to_dict(orient="list")))
+    if handler is not None:
+        ctx.count("draws-answered", len(handler.draws))
+    if var[2] is not None and any(all(v[j] > 0 for v in var) for j in range(t)):
+        ctx.flag("record-with-env+rep+err-parts")
+    if "df" in box and _sample_trial(case):
+        ctx.sample(dict(case=case, true_values=G, table=box["df"].to_dict(orient="list")))
+
+
+def _sample_trial(case):
+    """A handful of informative executions for the evidence file (which ones depends on the seed only)."""
+    k = case["seed"] % 3
+    if case["layer"] == "P1":
+        return ((case["n"], case["labvar"], case["model"][0], case["nenv"]) in ((3, "uns-grpdup", "AL", 2), (4, "uns-nogrp", "ADL", 3))
+                and case["nrep"] == [[1, 2], [2, 1, 1]][case["nenv"] - 2] and case["tag"] == k
+                and all(v == [1.0, 4.0][: len(v)] for v in case["var"]))
+    if case["layer"] == "P3":
+        return (case["n"], case["labvar"], case["model"], case["method"], case["target"], case["nenv"]) == \
+            (3, "uns-grpuniq", ["ADL", 1, True], "h2", 0.5, 2) and case["prior"] is None
+    return False
 
 
 def oracle_untouched(pg, pt, pop, nrep_list, var):
@@ -392,7 +407,8 @@ def _trial_values(ctx, pop, G, nrep_list, var, handler, phase, names, envs, reps
                 f"draw {d['id']} requested with mean {d['mean']} (effects must be centred at 0)")
         require(not d["offdiag"], PT + "generator-cov-offdiag",
                 f"draw {d['id']} requested with a non-diagonal covariance (traits are documented as independent)")
-    by_e = {d["e"]: d for d in draws}
+    by_e = {d["e"]: d for d in draws if d["e"] is not None}
+    overflow = handler is not None and handler.overflow
     allzero = not any(x > 0 for v in var for x in v)
     Gmax = max(abs(x) for row in G for x in row)
     # -- values --------------------------------------------------------------------------
@@ -420,6 +436,8 @@ def _trial_values(ctx, pop, G, nrep_list, var, handler, phase, names, envs, reps
                         f"table of call #{phase + 1} contains draw {d['id']} made during call #{d['phase'] + 1}")
                 used.setdefault(d["id"], []).append((i, e, p))
             nparts = max(nparts, len(ex))
+        if overflow:
+            continue
         obs = sorted((tuple(sorted(recs)), draws[did]["var"][j]) for did, recs in used.items())
         expf = sorted((tuple(sorted(recs)), vv) for recs, vv in R.expected_family(pop.n, nrep_list, var[0][j], var[1][j], var[2][j]))
         if [o[0] for o in obs] != [x[0] for x in expf]:
@@ -437,10 +455,12 @@ def _trial_values(ctx, pop, G, nrep_list, var, handler, phase, names, envs, reps
             unused = [d["id"] for d in draws if d["phase"] == phase and d["var"][j] > 0 and d["id"] not in used]
             if unused:
                 ctx.count("draws-requested-but-unused", len(unused))
-    if nparts == 3:
-        ctx.flag("record-with-env+rep+err-parts")
-    if handler is not None:
-        ctx.count("draws-answered", sum(1 for d in draws if d["phase"] == phase))
+    if overflow:
+        ctx.count("tag-overflow-executions")
+        if "tag-overflow" not in ctx.flags:
+            ctx.flag("tag-overflow")
+            ctx.capped.append("an execution requested more normal draws than distinct tags fit a double "
+                              f"({R.TagHandler.MAX_EXP + 1}); its draw structure was not decided")
 
 
 def _fam(f):
@@ -458,9 +478,15 @@ def oracle_heritability(ctx, case, pt, pg, pop, model, var):
         var[2] = None
         return
     tg = target if not isinstance(target, list) else numpy.array(target, dtype=float)
+    tl = [float(x) for x in target] if isinstance(target, list) else [float(target)] * t
+    ctx.flag(f"herit:{method}:{'array' if isinstance(target, list) else type(target).__name__}")
+    for x in tl:
+        ctx.flag(f"herit-target:{x:g}")
+    if model.kind == "ADL":
+        ctx.flag(f"herit:{method}:dominance-model")
+    ctx.count(f"heritability-cases:{method}")
     getattr(pt, "set_" + method)(tg, pg)
     ctx.transitions += 1
-    tl = [float(x) for x in target] if isinstance(target, list) else [float(target)] * t
     ve = numpy.asarray(pt.var_err, dtype=float)
     sig = f"G_E_Phenotyping.set_{method}:"
     require(ve.shape == (t,) and bool(numpy.all(numpy.isfinite(ve))) and bool(numpy.all(ve >= 0)), sig + "var_err-shape",
@@ -472,12 +498,7 @@ def oracle_heritability(ctx, case, pt, pg, pop, model, var):
                 f"trait {j}: genetic variance {vg!r}, var_err {float(ve[j])!r}: ratio {ratio!r}, target {tl[j]!r}")
     # the trial that follows must request exactly this error variance
     var[2] = [float((1 - Fraction_(tl[j])) / Fraction_(tl[j]) * V[j]) for j in range(t)]
-    ctx.flag(f"herit:{method}:{'array' if isinstance(target, list) else type(target).__name__}")
-    for x in tl:
-        ctx.flag(f"herit-target:{x:g}")
-    if model.kind == "ADL":
-        ctx.flag(f"herit:{method}:dominance-model")
-    ctx.count(f"heritability-checked:{method}")
+    ctx.count(f"heritability-ratio-ok:{method}")
 
 
 def Fraction_(x):
@@ -554,7 +575,8 @@ def _shard_b1(ctx, counts, part, nparts):
     allg = R.gt_lists_all(P, U, 4 if T else 3)
     idx = 0
     # (a) every row order x core genotype lists (+ no genotype matrix) x column variants.
-    #     thorough: full product up to 5 rows, 6 rows with two of the four trait-column variants per cell;
+    #     thorough: full product up to 4 rows; 5 rows: all orders x all lists x all group-column variants x 2 of 4
+    #     trait variants; 6 rows: all orders x all lists x 3 of 5 group-column variants x 1 trait variant (rotating);
     #     quick: full product up to 3 rows, then the row orders stay complete and the other axes rotate.
     gts = core + [None]
     for oi, order in enumerate(orders):
@@ -577,9 +599,9 @@ def _shard_b1(ctx, counts, part, nparts):
             else:
                 gcs = (GRPCOLS[(oi + gi) % 5],)
             for gci, gc in enumerate(gcs):
-                if Rw <= (5 if T else 3):
+                if Rw <= (4 if T else 3):
                     tvs = TRAITVARS
-                elif T:
+                elif T and Rw == 5:
                     tvs = ((oi + gi) % 4, (oi + gi + 2) % 4)
                 else:
                     tvs = ((oi + gi + gci) % 4,)
@@ -664,7 +686,6 @@ def run_estimate(ctx, case):
         if gobj is not None and case["gtgrp"] == 2:
             gobj.group_taxa()                       # a grouped genotype matrix: its order after grouping is "the order supplied"
             gt_eff, ggrp = gobj.taxa.tolist(), gobj.taxa_grp.tolist()
-            ctx.flag("gt:grouped")
         out = prot.estimate(df, gobj)
         ctx.transitions += 1
         box["out"] = out
@@ -674,8 +695,6 @@ def run_estimate(ctx, case):
             for fld in ("taxa_grp_name", "taxa_grp_stix", "taxa_grp_spix", "taxa_grp_len"):
                 require(same(getattr(out, fld), getattr(gobj, fld)), BV + "group-metadata",
                         f"{fld} of the result {getattr(out, fld)} differs from the genotype matrix's {getattr(gobj, fld)}")
-            if len(set(gt)) < len(gt):
-                ctx.flag("gt:duplicated-taxon")
         require(df.equals(before), BV + "input-mutated", "estimate() changed the phenotype table handed in")
         if gt is None and case["order"] != sorted(case["order"]):
             # row-order invariance of the *whole* result (incl. its taxon order) when no genotype order is imposed
@@ -714,10 +733,16 @@ def run_estimate(ctx, case):
             ctx.flag("gt:order-differs-from-groupby-order")
         if all(nm not in ph for nm in gt):
             ctx.flag("gt:only-unphenotyped")
+        if len(set(gt)) < len(gt):
+            ctx.flag("gt:duplicated-taxon")
+        if case["gtgrp"] == 2:
+            ctx.flag("gt:grouped")
         ctx.flag(f"gtgrp:{case['gtgrp']}")
         ctx.flag(f"gtcls:{case['gtcls']}")
-    if ctx.evaluations % 7001 == 11 and "out" in box:
-        ctx.sample(dict(case=case, taxa=box["out"].taxa.tolist(), values=box["out"].unscale()))
+    if "out" in box and case["counts"] == [1, 2, 2] and case["order"] == [4, 2, 0, 3, 1] and case["grpcol"] == "col" \
+            and case["traits"] == 1 and (gt is None or len(gt) == 5):
+        ctx.sample(dict(case=case, table=_table(case)[0].to_dict(orient="list"),
+                        result_taxa=box["out"].taxa.tolist(), result_values=box["out"].unscale()))
 
 
 def oracle_estimate(out, gt, ggrp, tlist, means, grp_of, null, free_grp=False, P=BV):
@@ -832,8 +857,8 @@ def run_pipeline(ctx, case):
         gobj = R.build_gmat(gt, ggrp, phased=True)
         if pop.grp is not None:
             gcol = "taxa_grp"
-        else:
-            gcol = "taxa_grp" if case["nullcol"] else None
+        else:   # ungrouped population: name the (all-null) group column phenotype() emitted, if it emitted one
+            gcol = "taxa_grp" if (case["nullcol"] and "taxa_grp" in df.columns) else None
         out = MeanPhenotypicBreedingValue("taxa", gcol, list(model.trait)).estimate(df, gobj)
         ctx.transitions += 1
         box["out"] = out
@@ -906,7 +931,7 @@ def finalize(ctx, tier, seed):
              "pipeline:null-group-column", "pipeline:extra0", "pipeline:extra1", "pipeline:extra2"]
     for x in need:
         assert x in f, f"alphabet element never exercised: {x}"
-    assert c.get("heritability-checked:h2", 0) > 0 and c.get("heritability-checked:H2", 0) > 0
+    assert c.get("heritability-cases:h2", 0) > 0 and c.get("heritability-cases:H2", 0) > 0
     assert c.get("draws-answered", 0) > 1000, c.get("draws-answered")
     assert len(ctx.outcomes) > 500, len(ctx.outcomes)
     assert len(ctx.nontrivial) > 500, len(ctx.nontrivial)
